@@ -154,6 +154,104 @@ def wellformed(a):
     return out
 
 
+def typed_probe_list():
+    """(action constructor args, probe description) for the membership law
+    with integral steps that are not exactly `int`: numpy integers, 0-d
+    integer arrays, bool, a user subclass of int -- also on the very wide
+    actions the online schedules emit (Forward(0, sys.maxsize, ...))."""
+    wide = [("Forward", (0, sys.maxsize, False, True, "WORK")),
+            ("Reverse", (sys.maxsize, 0, True)),
+            ("Forward", (0, 2 ** 40, True, False, "DISK")),
+            ("Forward", (3, 9, True, False, "RAM")),
+            ("Reverse", (9, 3, True))]
+    out = []
+    for kind, args in wide:
+        n0, n1 = (args[0], args[1]) if kind == "Forward" else (args[1], args[0])
+        vals = sorted({v for v in (n0 - 1, n0, n0 + 1, (n0 + n1) // 2,
+                                   10 ** 7, n1 - 2, n1 - 1, n1, n1 + 1)
+                       if -2 ** 62 < v < 2 ** 63 - 1})
+        for v in vals:
+            for typ in ("int64", "array0", "intsub", "bool"):
+                if typ == "bool" and v not in (0, 1):
+                    continue
+                out.append((kind, args, typ, v))
+    return out
+
+
+def typed_probe_run():
+    """Runs in a subprocess: prints one line per finished probe."""
+    import numpy
+
+    class Step(int):
+        pass
+    conv = {"int64": numpy.int64, "array0": numpy.array, "intsub": Step,
+            "bool": bool}
+    for i, (kind, args, typ, v) in enumerate(typed_probe_list()):
+        a = list(args)
+        if kind == "Forward":
+            a[4] = getattr(S, a[4])
+            act = API.Forward(*a)
+            n0, n1 = a[0], a[1]
+        else:
+            act = API.Reverse(*a)
+            n0, n1 = a[1], a[0]
+        x = conv[typ](v)
+        try:
+            got = bool(x in act)
+            ok = got == (n0 <= v < n1)
+            print(f"PROBE {i} {'ok' if ok else 'WRONG ' + str(got)}",
+                  flush=True)
+        except Exception as e:  # noqa: BLE001
+            print(f"PROBE {i} RAISED {type(e).__name__}: {e}", flush=True)
+    print("PROBE done", flush=True)
+
+
+def typed_membership_pass(res, prop):
+    import os
+    import subprocess
+    code = ("import sys; sys.path.insert(0, %r); "
+            "from vf import props_c18 as P; P.typed_probe_run()"
+            % common.VERIF_DIR)
+    env = dict(os.environ, PYTHONHASHSEED="0", VERIF_REPO=common.REPO)
+    probes = typed_probe_list()
+    try:
+        p = subprocess.run([sys.executable, "-c", code], env=env, text=True,
+                           capture_output=True, timeout=40)
+        out, timed_out = p.stdout, False
+    except subprocess.TimeoutExpired as e:
+        out = e.stdout or ""
+        if isinstance(out, bytes):
+            out = out.decode()
+        timed_out = True
+    lines = [x.split(" ", 2) for x in out.splitlines()
+             if x.startswith("PROBE ")]
+    done = [x for x in lines if x[1] != "done"]
+    res.add(evaluations=len(done), states=len(done), transitions=len(done))
+    res.counters["typed_membership_probes"] = len(done)
+
+    def describe(i):
+        kind, args, typ, v = probes[i]
+        return f"{typ}({v}) in {kind}{args}"
+    for x in done:
+        if x[2] != "ok":
+            i = int(x[1])
+            rp = common.write_replay(prop, "typed_membership", {
+                "property": prop, "kind": "typed_membership", "probe": i})
+            res.violation({"code": "typed_membership"},
+                          f"{describe(i)}: {x[2]}", rp)
+    if timed_out:
+        i = len(done)
+        rp = common.write_replay(prop, "typed_membership_hangs", {
+            "property": prop, "kind": "typed_membership", "probe": i})
+        res.violation({"code": "typed_membership_hangs"},
+                      f"{describe(i) if i < len(probes) else '?'} did not "
+                      "answer within 40 s (the probes before it took "
+                      "milliseconds)", rp)
+    elif not any(x[1] == "done" for x in lines):
+        res.harness_error("typed membership probes did not finish: "
+                          f"{out[-200:]}")
+
+
 def alphabet():
     A = []
     sts = [S.RAM, S.DISK, S.WORK, S.NONE]
@@ -329,10 +427,21 @@ def check(prop, tier):
                        "checkpoint_schedules import *; import sys; import "
                        "numpy as np`",
                        f"emitted actions: box N <= {N}"]
+    typed_membership_pass(res, prop)
     return common.finish(res)
 
 
 def replay(prop, payload):
+    if payload.get("kind") == "typed_membership":
+        res = common.Result(prop, "quick")
+        typed_membership_pass(res, prop)
+        for v in res.violations[:3]:
+            print(v["detail"])
+        if res.violations:
+            print(f"VIOLATION property={prop} replay=(replayed)")
+            return 1
+        print("typed membership probes replayed without a finding")
+        return 0
     k = payload["kind"]
     if k == "c18_pair":
         ns = _ns()
